@@ -1,5 +1,5 @@
 """Property -> rules registry.  (rule function, ports) ; ports None = rule handles ports itself."""
-from .rules import sk, wr, conf, lk, cs, ow, gs, rd, rs, ag, hd, pa
+from .rules import sk, wr, conf, lk, cs, ow, gs, rd, rs, ag, hd, pa, ifc
 
 BOTH = ('py', 'js')
 PY = ('py',)
@@ -32,7 +32,7 @@ PROPS = {
         'not_decided': 'y',
     },
     'C06': {
-        'rules': [(ow.rule_ow_open, BOTH), (ow.rule_ow_fs, BOTH), (ow.rule_ow_sql, None), (ow.rule_ow_pandas, None)],
+        'rules': [(ow.rule_ow_mut, BOTH), (ow.rule_ow_fresh, BOTH), (ow.rule_ow_open, BOTH), (ow.rule_ow_fs, BOTH), (ow.rule_ow_sql, None), (ow.rule_ow_pandas, None)],
         'explanation': 'x',
         'not_decided': 'y',
     },
@@ -78,6 +78,11 @@ PROPS = {
     },
     'C08': {
         'rules': [(pa.rule_pa_case, BOTH), (pa.rule_pa_withcase, BOTH), (pa.rule_pa_groups, BOTH), (pa.rule_pa_litorder, BOTH), (pa.rule_pa_lit, BOTH), (pa.rule_pa_top, BOTH), (pa.rule_pa_asc, BOTH), (pa.rule_pa_redund, BOTH)],
+        'explanation': 'x',
+        'not_decided': 'y',
+    },
+    'C13': {
+        'rules': [(ifc.rule_if_layer, None), (ifc.rule_if_conf, None), (ifc.rule_if_entry, None), (ifc.rule_cl_stdout, None), (ifc.rule_cl_exit, None)],
         'explanation': 'x',
         'not_decided': 'y',
     },
